@@ -2738,6 +2738,19 @@ namespace bloch::compiler {
         if (node.value)
             node.value->accept(*this);
 
+        // Arrays are values: storing into an element changes the variable (or field) itself, so
+        // it is an assignment to it as far as 'final' is concerned.
+        if (auto* var = dynamic_cast<VariableExpression*>(node.collection.get())) {
+            if (isDeclared(var->name)) {
+                if (isFinal(var->name)) {
+                    throw BlochError(ErrorCategory::Semantic, node.line, node.column,
+                                     "Cannot assign to final variable '" + var->name + "'");
+                }
+            } else if (auto field = resolveField(var->name, var->line, var->column)) {
+                recordFinalFieldAssignment(*field, var->name, node.line, node.column);
+            }
+        }
+
         // Type check: array element assignment must match element type.
         auto isArrayName = [](const std::string& name) {
             return name.size() >= 2 && name.rfind("[]") == name.size() - 2;
